@@ -308,7 +308,7 @@ def memory_rollback(tier, oid='O4', prefix='O4'):
     scenarios = 0
     # mutations between snapshot and rollback: which nostr id the group is re-saved with (None = not re-saved), whether the other group is re-saved too
     import itertools
-    for g_new_nid, other_changes, extra_snapshot, empty in itertools.product((None, N[0], N[2]), (False, True), (False, 'before', 'after'), (False, True)):
+    for g_new_nid, other_changes, extra_snapshot, empty in itertools.product((None, N[0], N[2]), (False, True), (False, 'before', 'after', 'retake'), (False, True)):
         if True:
             if True:
                 # `empty`: at snapshot time the group has NO relays, exporter secrets, own-leaf and epoch-key rows; they appear afterwards
@@ -378,6 +378,14 @@ def memory_rollback(tier, oid='O4', prefix='O4'):
                     # a second snapshot of the same group taken AFTER the record changed (e.g. at a later epoch): rolling back to the first one must not consume it
                     n2 = Ref(st.temp(StrV(text='other')), ())
                     st = [p for p in ob.explore(f_create, [sref, gref, n2], st) if p.kind == 'return'][0].st
+                if extra_snapshot == 'retake':
+                    # the snapshot is taken AGAIN under the same name after the mutations (a retried commit re-uses the name): re-taking replaces, so the rollback
+                    # must restore the state of the SECOND take (C09: "re-taking a snapshot under an existing name replaces it")
+                    rt = [p for p in ob.explore(f_create, [sref, gref, name], st) if p.kind == 'return']
+                    if not ob.require(len(rt) == 1 and vname(rt[0].ret) == 'Ok', f'{prefix}/memory-retake-snapshot', 're-taking a snapshot under an existing name does not succeed deterministically'):
+                        continue
+                    st = rt[0].st
+                    at_snapshot = dump_store(ob.eng, st, sref)
                 pre_rollback = dump_store(ob.eng, st, sref)
                 rs = ob.explore(f_roll, [sref, gref, name], st)
                 for p in rs:
@@ -387,7 +395,7 @@ def memory_rollback(tier, oid='O4', prefix='O4'):
                     if not ob.require(vname(p.ret) == 'Ok', f'{prefix}/memory-rollback-fails', 'rollback of an existing snapshot fails', p):
                         continue
                     after = dump_store(ob.eng, p.st, sref)
-                    tag = f'(group re-saved with nostr id {g_new_nid}, other group changed={other_changes}, group had no relays/secrets/leaf rows at snapshot time={empty})'
+                    tag = f'(group re-saved with nostr id {g_new_nid}, other group changed={other_changes}, group had no relays/secrets/leaf rows at snapshot time={empty}, second snapshot={extra_snapshot})'
                     # the group's own data == snapshot time
                     for cname in ('groups_cache', 'group_relays_cache', 'group_exporter_secrets_cache', 'mls_group_data', 'mls_own_leaf_nodes', 'mls_proposals', 'mls_epoch_key_pairs'):
                         mine = lambda d: [e for e in d[cname] if e[0].startswith('G0|')]
